@@ -206,7 +206,10 @@ def _rand_topology(rng, n_leaves, unary=0.15, max_arity=4):
 
 def _dyadic(rng):
     r = rng.random()
-    if r < 0.15:
+    if r < 0.12:
+        # negative branch lengths are legal ("any branch lengths"; neighbour joining produces them)
+        return -Fraction(rng.randint(1, 40), rng.choice([1, 2, 4, 8]))
+    if r < 0.25:
         return Fraction(0)
     if r < 0.6:
         return Fraction(rng.randint(1, 9))
@@ -436,6 +439,21 @@ def cases(rng, tier):
         for algo in ("upgma", "nj"):
             yield {"kind": "matrix_shape", "algo": algo, "shape": shape}
     yield {"kind": "deep_tree", "depth": 300000}
+    # ---------------- NJ on non-additive matrices that force negative branch lengths (one taxon close to
+    # everything while the others are far apart)
+    for _ in range(25 if quick else 300):
+        n = rng.choice([4, 5, 5, 6, 7, 8])
+        S = 2 ** (n - 2)
+        for q in range(1, n - 1):
+            S = S * q // math.gcd(S, q)
+        hub = rng.randrange(n)
+        near, far = rng.choice([1, 1, 2]), rng.choice([8, 10, 20])
+        m = [[0] * n for _ in range(n)]
+        for i in range(n):
+            for j in range(i):
+                v = near if hub in (i, j) else far + rng.choice([0, 0, 1, 2])
+                m[i][j] = m[j][i] = v * S
+        yield _matrix_case("nj_negative_branch", "nj", m, True)
     # ---------------- malformed matrices (both sides must agree on the rejection)
     for _ in range(30 if quick else 300):
         n = rng.choice([0, 1, 2, 3, 4, 5])
@@ -989,6 +1007,21 @@ def _oracle_matrix_inner(case):
     v += _input_checks(fn, algo, M, n, desc, big)
     if v:
         return v
+    if algo == "nj":
+        # leaves joined directly with each other: node_dist_i + node_dist_j = d(i,j) whatever the matrix
+        # (C19_nj_join_lengths / the exact three-way join), also when one of the two lengths is negative
+        for node, _d in dep.values():
+            if node.is_leaf():
+                continue
+            kids = [c for c in node.children if c.is_leaf()]
+            for a in kids:
+                for b in kids:
+                    if a is not b:
+                        got = Fraction(a.distance) + Fraction(b.distance)
+                        if not _close(got, M[a.index][b.index], tol):
+                            return [("C19/nj/sibling-leaves-distance",
+                                     f"leaves {a.index},{b.index} are joined directly with branches {a.distance} + {b.distance} "
+                                     f"but d = {float(M[a.index][b.index])}: {desc}")]
     if case.get("additive") and algo == "nj":
         for i in range(n):
             for j in range(n):
@@ -1049,6 +1082,18 @@ def _oracle_newick_inner(case, phylo, labels, inc):
         back = phylo.Tree.from_newick(s2, labels)
     except Exception as e:  # noqa: BLE001
         return [(key, f"{s2!r} (labels {labels!r}) cannot be read back: {type(e).__name__}: {e}")]
+    if case.get("kind") == "newick" and not has_illegal:
+        text = _py_newick(case["tree"], labels, inc) + ";"
+        try:
+            direct = phylo.Tree.from_newick(text, labels)
+            if _struct(direct.root, inc) != _json_struct(case["tree"], inc):
+                return [("C19/newick/read-differs-from-text" if key == "C19/newick/roundtrip" else key,
+                         f"{text!r} is read as {_dump(direct.root)}")]
+            if _struct(tree.root, True) != _json_struct(case["tree"]):
+                return [("C19/construct/branch-length-altered", f"{_dump(tree.root)} built for {_tok(case['tree'])}")]
+        except Exception as e:  # noqa: BLE001
+            if key == "C19/newick/roundtrip":
+                return [(key, f"{text!r} cannot be read: {type(e).__name__}: {e}")]
     if _struct(back.root, inc) != _struct(tree.root, inc):
         return [(key, f"{s2!r} reads back as a different tree: {back.to_newick(include_distance=inc)} vs {tree.to_newick(include_distance=inc)}")]
     if inc and (back != tree or _pair_dists(back) != _pair_dists(tree)):
@@ -1056,10 +1101,28 @@ def _oracle_newick_inner(case, phylo, labels, inc):
     return []
 
 
+def _json_struct(tree, with_dist=True):
+    """The structure the JSON case describes (same shape as `_struct`)."""
+    if isinstance(tree, int):
+        return tree
+    return [[(Fraction(d) if with_dist else 0), _json_struct(c, with_dist)] for d, c in tree]
+
+
 def _oracle_dist(case):
     from biotite.sequence import phylo
     root = _build(case["tree"])
     tree = phylo.Tree(root)
+    # the objects hold exactly the branch lengths they were constructed with (dyadic: float32 exact)
+    if _struct(root, True) != _json_struct(case["tree"]):
+        return [("C19/construct/branch-length-altered",
+                 f"TreeNode(children, distances) stores {_dump(root)} for the requested {_tok(case['tree'])}")]
+    n = len(tree)
+    want = _additive(case["tree"], n)
+    for i in range(n):
+        for j in range(n):
+            if Fraction(_gd(tree, i, j)) != want[i][j]:
+                return [("C19/distance/differs-from-given-branch-lengths",
+                         f"leaves {i},{j}: {_gd(tree, i, j)} but the branch lengths given add up to {float(want[i][j])}: {_tok(case['tree'])}")]
     for i, j, topo in case["pairs"]:
         ps, cnt, _ = _path_sum(tree.leaves[i], tree.leaves[j])
         got = _gd(tree, i, j, bool(topo))
@@ -1269,7 +1332,8 @@ def _oracle_api(case):
         for _ in range(3):
             i, j = rr.randrange(n), rr.randrange(n)
             try:
-                dg = nx.shortest_path_length(und, i, j, weight="distance")
+                hop = nx.shortest_path(und, i, j)       # the unique path of a tree (weights may be negative)
+                dg = sum(und[a][b]["distance"] for a, b in zip(hop, hop[1:]))
             except Exception as e:  # noqa: BLE001
                 bad("as_graph", f"no path {i}-{j}: {type(e).__name__}")
                 break
